@@ -24,6 +24,9 @@ EXPLANATION = (
 
 def _timedelta_arms(ctx) -> None:
     m = pmod("datetime")
+    from . import C04 as _C04
+    # what the `+ delta` / `- delta` helpers hand to add() / subtract() for each kind of operand, on values (a plain timedelta: its elapsed length in clock units)
+    _C04._delta_tabulate(ctx, m, "DateTime", "_add_timedelta_", "_subtract_timedelta", AD.ADD_PARAMS)
     for q, meth in (("DateTime._add_timedelta_", "self.add"), ("DateTime._subtract_timedelta", "self.subtract")):
         fn = m.func(q)
         dp = core.params(fn)[0]
